@@ -205,6 +205,7 @@ def load_shim(path):
         'vf_time_set': (None, [lg]), 'vf_time_calls': (lg, []),
         'vf_io_config': (None, [ctypes.c_int, u64]), 'vf_io_stats': (u64, [vp]),
         'vf_io_first_send_after_fail': (None, [vp]),
+        'vf_io_after_fail_types': (ctypes.c_int, [vp]),
         'vf_galloc': (vp, [sz]), 'vf_galloc0': (vp, [sz]), 'vf_gfree': (None, [vp]),
         'vf_capture_begin': (ctypes.c_int, [ctypes.c_char_p, ctypes.c_char_p]),
         'vf_capture_end': (ctypes.c_int, []),
